@@ -18,7 +18,7 @@ META = {
 def pointees(ptr_bytes):
     return [("char", "char", 1), ("short", "short", 2), ("int", "int", 4), ("long", "long", 4), ("llong", "long long", 8),
             ("intp", "int*", ptr_bytes), ("vs24", "VS24", 8 + ptr_bytes if ptr_bytes == 4 else 4 + 2 + 2 + 4),
-            ("arr4", "int[4]", 16), ("arr23", "long[2][3]", 24)]
+            ("arr4", "int[4]", 16), ("arr23", "long[2][3]", 24), ("cllong", "const long long", 8), ("clong", "const long", 4)]
 
 
 def ptr_type(pt):
